@@ -2,7 +2,8 @@
 (* Random circuits with mid-circuit measure gates (tlc -simulate).  A measure step picks a random ascending qubit subset
    and an outcome from the support of the state AT THAT POINT; the recorded log holds, for every measure gate in program
    order, the outcome, the Born marginals and the squared norm of the state just before it (computed with the final
-   register size, as the library runs the whole program on the final register). *)
+   register size, as the library runs the whole program on the final register).  shift_qubit_index_ steps move the whole
+   program - measure gates included - to higher qubits. *)
 EXTENDS Measure, TLC
 CONSTANTS QN, Depth
 VARIABLES obs, ops
@@ -31,8 +32,11 @@ DoAdd == \E s \in {RandomElement(Shapes)} : \E x \in {RandomElement(0..511)} : \
 DoMeasure == obs.n > 0 /\ \E mask \in {RandomElement(1..(2^obs.n - 1))} :
                \E S \in {MaskSet(mask, obs.n)} : \E o \in {RandomElement(Support(obs.psi, S, obs.n))} :
                LET g == [Sh("measure", {}, AscSeq(S)) EXCEPT !.out = o] IN Step(Append(gates, g), g)
+\* shift_qubit_index_(1): every gate - the measure gates included - moves up by one qubit; the outcomes already fixed stay attached
+\* to their gates.  (The register may grow to QN + 1 qubits this way.)
+DoShift == obs.n > 0 /\ obs.n <= QN /\ Step([i \in 1..Len(gates) |-> ShiftG(gates[i], 1)], [Sh("shift", {}, <<1>>) EXCEPT !.out = 1])
 Next == /\ Len(ops) < Depth
-        /\ \E c \in {RandomElement(1..4)} : IF c = 1 /\ obs.n > 0 THEN DoMeasure ELSE DoAdd
+        /\ \E c \in {RandomElement(1..9)} : IF c <= 2 /\ obs.n > 0 THEN DoMeasure ELSE IF c = 3 /\ obs.n > 0 /\ obs.n <= QN THEN DoShift ELSE DoAdd
 Spec == Init /\ [][Next]_vars
 \* the state never vanishes (outcomes are drawn from the support) and every logged distribution sums to its norm
 AliveOK == obs.n > 0 => obs.n2 # OZero
